@@ -147,7 +147,7 @@ def script_for(kind, src, di):
 def compare_one(ast, kind, di):
     """-> None if jinja2 agrees with the reference on (ast, env kind, data), else
     (channel, expected, got)."""
-    ref = G.reference(ast, G.make_data(di) if di >= 0 else {})
+    ref = G.reference(ast, G.make_data(di) if di >= 0 else {}, sandbox=kind == "sandbox")
     if ref[0] == "skip":
         return None
     (vo, ro), = jinja_outcomes(kind, G.to_src(ast), [G.make_data(di) if di >= 0 else {}])
@@ -201,7 +201,7 @@ def root_class(ast):
 def check_case(p, section, label, ast, src, kind, data_ids):
     """evaluate one source in one environment on the given data assignments."""
     datas = [G.make_data(i) if i >= 0 else {} for i in data_ids]
-    refs = [G.reference(ast, G.make_data(i) if i >= 0 else {}) for i in data_ids]
+    refs = [G.reference(ast, G.make_data(i) if i >= 0 else {}, sandbox=kind == "sandbox") for i in data_ids]
     if all(r[0] == "skip" for r in refs):
         p.count("skipped_unspecified", len(refs))
         return
@@ -417,10 +417,10 @@ def _attrsyntax():
         G.Dict((S("k"), I(1))),
         G.Dict(),
         G.List(I(1), I(2)), G.Tuple(I(1), I(2)), S("ab"), I(7), G.NONE,
-        G.Name("d"), G.Name("o"), G.Name("u"),
+        G.Name("d"), G.Name("o"), G.Name("u"), G.Name("du"), G.Dict((S("_id"), I(7)), (S("__x"), I(8))),
         G.List(G.Dict((S("items"), I(5)), (S("keys"), I(1)))),  # reached through [0] below
     ]
-    names = ("items", "keys", "values", "get", "k", "z", "index", "count", "upper", "real")
+    names = ("items", "keys", "values", "get", "k", "z", "index", "count", "upper", "real", "_id", "__x", "_p", "_i")
     access = [
         ("attr", lambda t, n: G.Attr(t, n)),
         ("item", lambda t, n: G.Item(t, S(n))),
